@@ -75,6 +75,32 @@ func (m *machine) intrinsic(name string, fn *ssa.Function, args []value, pos tok
 	}
 	tt := m.tt
 	switch name {
+	// ---- file-handle model (environment stub): os.Open either fails or returns a fresh handle that
+	// stays "open" until (*os.File).Close is called on it; no other file operation is modelled
+	case "os.Open", "os.Create":
+		if m.inInit {
+			break
+		}
+		if m.enumerate(0, 1) == 0 {
+			return tup{(*value)(nil), m.mkError("open: no such file or directory")}, true
+		}
+		p := new(value)
+		*p = agg{(*value)(nil)}
+		if m.openFiles == nil {
+			m.openFiles = map[*value]bool{}
+		}
+		m.openFiles[p] = true
+		return tup{p, iface{}}, true
+	case "(*os.File).Close":
+		p, _ := args[0].(*value)
+		if p == nil {
+			return m.mkError("invalid argument"), true
+		}
+		if m.openFiles[p] {
+			delete(m.openFiles, p)
+			return iface{}, true
+		}
+		return m.mkError("close: file already closed"), true
 	case "regexp.MustCompile", "regexp.Compile":
 		pat, ok := args[0].(string)
 		if !ok {
@@ -575,6 +601,8 @@ func (m *machine) harnessRT(short string, fn *ssa.Function, args []value, pos to
 		return nil, true
 	case "vIsSymbolic":
 		return bv{c: true}, true
+	case "vOpenFiles":
+		return mkInt(int64(len(m.openFiles))), true
 	}
 	return nil, false
 }
